@@ -179,6 +179,59 @@ def padToSize (d : DH) (want : Nat) : DhRes := padToSizeF 2 d want
 size of the placeholder written before hashing. -/
 def sameSizeCheck (placeholderLen finalLen : Nat) : Bool := placeholderLen == finalLen
 
+/-! ### `Store::save_to_stream`: placeholder pass, re-hash, sign -/
+
+/-- `Store::sign_claim_placeholder`: a 32-byte digest resized to `max(32, reserve)` bytes — the
+content of the signature box while the asset is written and hashed. -/
+def sigPlaceholder (reserve : Nat) : Nat := max 32 reserve
+
+/-- One embedding run as far as sizes go. JUMBF box headers are fixed-width, so the JUMBF length
+is `fixed` + signature-box content + DataHash assertion CBOR. -/
+structure Save where
+  /-- JUMBF bytes outside the signature box content and the DataHash assertion CBOR -/
+  fixed : Nat
+  /-- `signer.reserve_size()` -/
+  reserve : Nat
+  /-- the COSE_Sign1 the signer produces (before padding) -/
+  sig : Sign1
+  /-- `signer.direct_cose_handling()`: `sign_claim` returns the signer's bytes as they are -/
+  direct : Bool
+  /-- the DataHash written with the placeholder (dummy ranges, ten bytes of padding) -/
+  dh0 : DH
+  /-- the DataHash with the final ranges and digest, before `pad_to_size` -/
+  dh1 : DH
+  deriving Repr
+
+inductive SaveRes
+  /-- signed: length of the JUMBF embedded for hashing, length of the final JUMBF -/
+  | ok (placeholderLen finalLen : Nat)
+  /-- `Error::JumbfCreationError` (from `pad_to_size` or from the equal-size check) -/
+  | jumbfError
+  /-- `Error::CoseSigboxTooSmall` -/
+  | sigTooSmall
+  | panic
+  | fuelOut
+  deriving DecidableEq, Repr
+
+/-- `save_to_stream`: `start_save_stream` (placeholder JUMBF written, hashes computed,
+`update_data_hash` = `pad_to_size(original_len)`, JUMBF regenerated, `jumbf_size != data.len()`
+check), then `sign_claim` with the signer's reserve, then the final JUMBF. Nothing compares the
+final JUMBF with the placeholder JUMBF. -/
+def Save.run (v : Save) : SaveRes :=
+  let ph := v.fixed + sigPlaceholder v.reserve + dhSize v.dh0
+  match padToSize v.dh1 (dhSize v.dh0) with
+  | .err => .jumbfError
+  | .fuelOut => .fuelOut
+  | .ok d' =>
+    if !sameSizeCheck ph (v.fixed + sigPlaceholder v.reserve + dhSize d') then .jumbfError
+    else if v.direct then .ok ph (v.fixed + size v.sig none none + dhSize d')
+    else
+      match padCoseSig v.sig (some v.reserve) with
+      | .ok len _ _ => .ok ph (v.fixed + len + dhSize d')
+      | .tooSmall => .sigTooSmall
+      | .panic => .panic
+      | .fuelOut => .fuelOut
+
 /-! ### line protocol -/
 
 def optStr : Option Nat → String
@@ -213,6 +266,33 @@ def handle (toks : List String) : String :=
     else
       (padToSize { rest := a - 1, pad := natField rest "pad", pad2 := parseOpt (field rest "pad2") }
         (natField rest "want")).str
+  | "save" :: rest =>
+    -- end-to-end `Builder::sign`: sizes measured on the implementation's own output
+    let b := natField rest "base"
+    let k := natField rest "k"
+    let t0 := natField rest "t0"
+    let a1 := natField rest "a1"
+    if b < hdr k || t0 < 1 || a1 < 1 then "bad-request"
+    else
+      let v : Save :=
+        { fixed := 0, reserve := natField rest "reserve", sig := { rest := b - hdr k, k := k }
+          direct := field rest "direct" == "1"
+          dh0 := { rest := t0 - 1, pad := 0, pad2 := none }
+          dh1 := { rest := a1 - 1, pad := 0, pad2 := none } }
+      match v.run with
+      | .ok ph fin =>
+        if ph == fin then
+          match padToSize v.dh1 (dhSize v.dh0) with
+          | .ok d' =>
+            "ok same sig=" ++ toString (fin - dhSize d') ++ " dhpad=" ++ toString d'.pad ++
+              " dhpad2=" ++ optStr d'.pad2
+          | _ => "model-inconsistent"
+        else if fin < ph then "ok shorter=" ++ toString (ph - fin)
+        else "ok longer=" ++ toString (fin - ph)
+      | .jumbfError => "err jumbf"
+      | .sigTooSmall => "err toosmall"
+      | .panic => "panic"
+      | .fuelOut => "model-fuel-out"
   | _ => "bad-op"
 
 end C2pa.C14
